@@ -475,6 +475,12 @@ theorem C18_lz4_format_examples :
     (lz4BlockDecode [0x11, 0x41, 0x01, 0x00] 7).toOption = none ∧
     (lz4BlockDecode [0xF0, 0xFF, 0xFF] 1000).toOption = none := by decide
 
+/-- the one ending on which decoders differ: a LAST sequence without literals (token `00` right after a
+    match, or alone). The format's decoder accepts it (the block ends after its last match); pierrec's
+    amd64 decoder answers an error, its pure-Go decoder accepts (props `partial`; op `lz4blk` skips them). -/
+example : (lz4BlockDecode [0x11, 0x41, 0x01, 0x00, 0x00] 6).toOption = some [0x41, 0x41, 0x41, 0x41, 0x41, 0x41] ∧
+    (lz4BlockDecode [0x00] 6).toOption = some [] := by decide
+
 /-- FULL STATEMENT ("a corrupt compressed body yields an error") for the detectable corruption "match
     offset 0": holds for the format's decoder — kernel-checked on the block that pierrec/lz4 v4.1.8's
     amd64 decoder ACCEPTS (it copies 8 not-yet-written destination bytes: zeros through lz4.go);
